@@ -56,7 +56,7 @@ type Case struct {
 }
 
 const (
-	tagCode   = 33 // Proxy-State, OctetString
+	tagCode   = 3000033 // a code no dictionary defines: decoded as datatype.Unknown, a view of the bytes that were read
 	tagFlags  = 0x40
 	tagPrefix = 8 // stream(2) seq(2) payload length(4)
 	deadline  = 10 * time.Second
@@ -268,6 +268,7 @@ func runCase(c Case) *ev.Failure {
 	var (
 		mu   sync.Mutex
 		got  []delivery
+		kept []*diam.Message // every delivered message, looked at again when the association is over
 		werr []string
 	)
 	mux := diam.NewServeMux()
@@ -296,6 +297,7 @@ func runCase(c Case) *ev.Failure {
 		_, err := a.WriteTo(conn)
 		mu.Lock()
 		got = append(got, d)
+		kept = append(kept, m)
 		if err != nil {
 			werr = append(werr, fmt.Sprintf("reply to %s: %v", label(d.tag), err))
 		}
@@ -487,6 +489,16 @@ func runCase(c Case) *ev.Failure {
 				return ev.Failf("reply-count", "message (stream %d, seq %d) was delivered once but the backend recorded %d replies to it (%d writes in all)%s",
 					c.Streams[i].ID, q, n, len(writes), diag())
 			}
+		}
+	}
+	// a delivered message stays what it was while the association goes on receiving
+	for n, m := range kept {
+		if len(m.AVP) == 0 || len(got[n].tag) == 0 || got[n].navp != 1 {
+			continue
+		}
+		if now := m.AVP[0].Data.Serialize(); !bytes.Equal(now, got[n].tag) {
+			return ev.Failf("delivered-message-changed-later", "delivery %d, labelled %s when it was handed to the handler, holds other bytes now that the association is over (first difference at payload offset %d, now labelled %s): the message shares memory with the transport's buffers%s",
+				n, label(got[n].tag), firstDiff(now, got[n].tag), label(now), diag())
 		}
 	}
 	if len(werr) > 0 {
